@@ -109,8 +109,11 @@ def key_of(v):
 
 
 class Model:
-    def __init__(self, forin_own_only=True):
+    def __init__(self, forin_own_only=True, es_key_order=True):
         self.forin_own_only = forin_own_only  # spec.md; False = plain ECMAScript (node validation)
+        # False: own keys are enumerated in plain creation order everywhere (the
+        # recorded integer-key finding; used for the "recorded wrong answer")
+        self.es_key_order = es_key_order
         self.OP = Obj("plain", None, "OP")
         self.FP = Obj("function", self.OP, "FP", ["native", "nop"])
         self.AP = Obj("array", self.OP, "AP")
@@ -120,18 +123,19 @@ class Model:
         self._builtin(self.Object, "prototype", self.OP, writable=False, configurable=False)
         self._builtin(self.Array, "prototype", self.AP, writable=False, configurable=False)
         self._builtin(self.Function, "prototype", self.FP, writable=False, configurable=False)
-        self._builtin(self.OP, "constructor", self.Object)
-        self._builtin(self.AP, "constructor", self.Array)
-        self._builtin(self.FP, "constructor", self.Function)
+        # (enumerability of built-in properties is left open: enum=None)
+        self._builtin(self.OP, "constructor", self.Object, enum=None)
+        self._builtin(self.AP, "constructor", self.Array, enum=None)
+        self._builtin(self.FP, "constructor", self.Function, enum=None)
         for name, n in (("hasOwnProperty", 1), ("isPrototypeOf", 1), ("toString", 0), ("valueOf", 0)):
-            self._builtin(self.OP, name, self._native_fn(name, n))
+            self._builtin(self.OP, name, self._native_fn(name, n), enum=None)
         self.OP.props["__proto__"] = Prop(
-            acc=True, get=self._native_fn("get __proto__", 0, "protoget"), set=self._native_fn("set __proto__", 1, "protoset"), enum=False
+            acc=True, get=self._native_fn("get __proto__", 0, "protoget"), set=self._native_fn("set __proto__", 1, "protoset"), enum=None
         )
         for name in ("toString", "call", "apply", "bind"):
-            self._builtin(self.FP, name, self._native_fn(name, 1))
+            self._builtin(self.FP, name, self._native_fn(name, 1), enum=None)
         for name in ("toString", "join", "push", "pop", "slice", "concat", "map", "forEach", "indexOf"):
-            self._builtin(self.AP, name, self._native_fn(name, 1))
+            self._builtin(self.AP, name, self._native_fn(name, 1), enum=None)
         self.slots = [UNDEF] * NSLOTS
         self.ctors = []
         for i in range(NCTORS):
@@ -300,10 +304,12 @@ class Model:
         out.extend(o.props.items())
         return out
 
-    def own_keys(self, o, es_order=True, accessors=True):
+    def own_keys(self, o, es_order=None, accessors=True):
         """[(key, optional)] of the own enumerable keys.  es_order False gives
         plain insertion order (the recorded integer-key finding); accessors
         False leaves own accessor properties out (the recorded accessor finding)."""
+        if es_order is None:
+            es_order = self.es_key_order
         items = []
         for k, p in self.own_props(o):
             if p.enum is False:
@@ -317,7 +323,7 @@ class Model:
             items = [(k, opt) for _, k, opt in ints] + [(k, opt) for k, opt in items if array_index(k) is None]
         return items
 
-    def forin_keys(self, o, es_order=True, accessors=True):
+    def forin_keys(self, o, es_order=None, accessors=True):
         """Keys a for-in loop visits: own enumerable keys (documented mode);
         with forin_own_only False also inherited enumerable keys that no
         earlier object of the chain has under the same name."""
@@ -798,7 +804,7 @@ class Model:
         """Expected observation record of one target (mirror of OBS in
         gens/c08gen.PRELUDE).  Returns a dict:
           per:   [[enc(o[k]) | "throw", "T"/"F", "T"/"F"] per key]
-          keys:  variants {(es_order, accessors): (keys, values, entries, forin)}
+          variants {accessors included?: {keys, values, entries, forin, json}}
           proto, inst: ["T"/"F"/"throw" x 4], isproto: ["T"/"F" per proto], json variants
         """
         o = self.target(spec)
@@ -810,19 +816,18 @@ class Model:
                 g = "throw"
             per.append([g, "T" if self.has(o, k) else "F", "T" if self.has_own(o, k) else "F"])
         variants = {}
-        for es in (True, False):
-            for acc in (True, False):
-                ks = self.own_keys(o, es_order=es, accessors=acc)
-                vals, ents = [], []
-                for k, opt in ks:
-                    try:
-                        e = self.enc(self.get(o, k))
-                    except Throw:
-                        e = "throw"
-                    vals.append((e, opt))
-                    ents.append((k + "=" + e, opt))
-                variants[(es, acc)] = {"keys": ks, "values": vals, "entries": ents, "forin": self.forin_keys(o, es, acc),
-                                       "json": self.json(o, es, acc) if want_json else None}
+        for acc in (True, False):
+            ks = self.own_keys(o, accessors=acc)
+            vals, ents = [], []
+            for k, opt in ks:
+                try:
+                    e = self.enc(self.get(o, k))
+                except Throw:
+                    e = "throw"
+                vals.append((e, opt))
+                ents.append((k + "=" + e, opt))
+            variants[acc] = {"keys": ks, "values": vals, "entries": ents, "forin": self.forin_keys(o, accessors=acc),
+                             "json": self.json(o, acc) if want_json else None}
         inst = []
         for f in self.ctors:
             try:
@@ -839,13 +844,15 @@ class Model:
         }
 
     # JSON.stringify on plain data (None when the value is not plain data)
-    def json(self, o, es_order=True, accessors=True, depth=0, stack=()):
+    def json(self, o, accessors=True, depth=0, stack=()):
         try:
-            return self._json(o, es_order, accessors, depth, stack)
+            return self._json(o, accessors, depth, stack)
+        except _Cyclic:
+            return CYCLIC
         except _NotPlain:
             return None
 
-    def _json(self, v, es, acc, depth, stack):
+    def _json(self, v, acc, depth, stack):
         if v is None:
             return "null"
         if v is True:
@@ -864,19 +871,21 @@ class Model:
             return None
         if v.kind == "function":
             return None
-        if depth > 5 or id(v) in stack:
-            raise _NotPlain()  # cyclic: ES throws; not observed
+        if id(v) in stack:
+            raise _Cyclic()  # JSON.stringify throws a TypeError
+        if depth > 5:
+            raise _NotPlain()
         if self.has(v, "toJSON"):
             raise _NotPlain()
         stack = stack + (id(v),)
         if v.kind == "array":
             parts = []
             for x in v.elems:
-                r = self._json(x, es, acc, depth + 1, stack)
+                r = self._json(x, acc, depth + 1, stack)
                 parts.append("null" if r is None else r)
             return "[" + ",".join(parts) + "]"
         parts = []
-        for k, opt in self.own_keys(v, es_order=es, accessors=acc):
+        for k, opt in self.own_keys(v, accessors=acc):
             if opt:
                 val = self.get(v, k)
                 if isinstance(val, Obj) and val.kind == "function":
@@ -886,7 +895,7 @@ class Model:
                 val = self.get(v, k)
             except Throw:
                 raise _NotPlain()
-            r = self._json(val, es, acc, depth + 1, stack)
+            r = self._json(val, acc, depth + 1, stack)
             if r is not None:
                 if not all(c.isalnum() or c in "_-." for c in k):
                     raise _NotPlain()
@@ -896,3 +905,10 @@ class Model:
 
 class _NotPlain(Exception):
     pass
+
+
+class _Cyclic(Exception):
+    pass
+
+
+CYCLIC = "cyclic"  # Model.json: the value is cyclic, JSON.stringify throws
